@@ -79,9 +79,9 @@ theorem csv_file_roundtrip (o : Opts) (g : o.Good) (n : Nat) (hn : 0 < n) (names
 
 /-! ## tables -/
 
-/-- a cell that prints to a non-empty text which parses back to itself (C19's round trips) -/
+/-- a cell whose text parses back to itself (C19's round trips; NULL ↦ empty field ↦ NULL) -/
 def CellOk (ty : Ty) (c : Option DV) : Prop :=
-  ∃ t, cellText c = some t ∧ t ≠ [] ∧ parseCell ty t = some (.ok c)
+  ∃ t, cellText c = some t ∧ parseCell ty t = some (.ok c)
 
 def RowOk : List Ty → List (Option DV) → Prop
   | [], [] => True
@@ -95,7 +95,7 @@ theorem rowOk_texts : ∀ (tys : List Ty) (row : List (Option DV)), RowOk tys ro
   | [], _ :: _, h => absurd h (by simp [RowOk])
   | _ :: _, [], h => absurd h (by simp [RowOk])
   | ty :: tys, c :: cs, h => by
-    obtain ⟨⟨t, ht, _, hp⟩, hrest⟩ := h
+    obtain ⟨⟨t, ht, hp⟩, hrest⟩ := h
     obtain ⟨texts, h1, h2, h3⟩ := rowOk_texts tys cs hrest
     refine ⟨t :: texts, ?_, by simp [h2], ?_⟩
     · simp [allSome, ht, h1]
@@ -154,12 +154,11 @@ theorem rowGood_rowOk : ∀ (tys : List Ty) (row : List (Option DV)), rowGood ty
 
 /-- TYPED TABLE THEOREM.  For every option set with delimiter ≠ quote, neither CR/LF (any ESCAPE,
 HEADER or not), every column list of at least one of {BOOLEAN, SMALLINT, INT, BIGINT, VARCHAR, BLOB,
-DATE, TIMESTAMP, INTERVAL} and every table whose cells are: non-NULL, integers in range, non-empty
+DATE, TIMESTAMP, INTERVAL} and every table whose cells are: NULL, or integers in range, non-empty
 strings / blobs (any bytes), dates in chrono's range, printable timestamps (µs precision) outside
-chrono's first year, intervals with i32 fields, whole seconds and not all-zero —
+chrono's first year, intervals with i32 fields (any milliseconds) and not all-zero —
 `COPY FROM (COPY TO t) = t`, same rows in the same order.  All hypotheses are decidable on the table;
-each excluded cell class has a recorded witness (NULL, '', zero interval, out-of-range date /
-timestamp, sub-second interval). -/
+each excluded cell class has a recorded witness ('', zero interval, out-of-range date / timestamp). -/
 theorem table_roundtrip_typed (o : Opts) (g : o.Good) (tys : List Ty) (names : List Bytes)
     (hnames : names.length = tys.length) (hcols : 0 < tys.length) (t : Table)
     (h : t.all (rowGood tys) = true) :
@@ -168,11 +167,11 @@ theorem table_roundtrip_typed (o : Opts) (g : o.Good) (tys : List Ty) (names : L
     (fun row hr => rowGood_rowOk tys row (List.all_eq_true.mp h row hr))
 
 example : ∃ file, exportTable { delim := 59, quote := 39, escape := some 92, header := true } [[97], [98], [99]]
-      [[some (.blob [0, 92, 39, 59]), some (.date 11016), some (.interval (-14) 0 1000)],
-       [some (.blob [255]), some (.date (-719529)), some (.interval 0 3 0)]] = some file ∧
+      [[some (.blob [0, 92, 39, 59]), some (.date 11016), some (.interval (-14) 0 1001)],
+       [some (.blob [255]), none, some (.interval 0 3 0)]] = some file ∧
     importCsv { delim := 59, quote := 39, escape := some 92, header := true } [.blob, .date, .interval] file =
-      .ok [[some (.blob [0, 92, 39, 59]), some (.date 11016), some (.interval (-14) 0 1000)],
-           [some (.blob [255]), some (.date (-719529)), some (.interval 0 3 0)]] :=
+      .ok [[some (.blob [0, 92, 39, 59]), some (.date 11016), some (.interval (-14) 0 1001)],
+           [some (.blob [255]), none, some (.interval 0 3 0)]] :=
   table_roundtrip_typed _ ⟨by decide, by decide, by decide⟩ _ _ rfl (by decide) _ (by decide)
 
 /-! ## the FULL statement is false on the code that exists -/
@@ -197,18 +196,31 @@ def TableRoundtripFull : Prop :=
     (t.all (rowHasTys tys)) = true →
     ∀ file, exportTable o names t = some file → importCsv o tys file = .ok t
 
-/-- NULL is written as the four letters `NULL` and read back as the *string* `NULL`
-(known finding `csv:null-cell`) -/
-theorem null_cell_unsound : ¬ TableRoundtripFull := by
+/-- the FULL statement is still false: the empty string comes back as NULL (see
+`empty_string_unsound` below) -/
+theorem table_roundtrip_full_unsound : ¬ TableRoundtripFull := by
   intro h
-  have := h {} [.str] [[99, 48]] [[none]] rfl (by decide) _ rfl
+  have := h {} [.str] [[99, 48]] [[some (.str [])]] rfl (by decide) _ rfl
   revert this
   decide
 
-example : importCsv {} [.str] (writeCsv {} [[nullText]]) = .ok [[some (.str nullText)]] := by decide
-/-- … and as a parse error in a non-string column -/
-theorem null_cell_int_error : ∃ file, exportTable {} [[99, 48]] [[some (.i32 1)], [none]] = some file ∧
-    importCsv {} [.i32] file = .error := ⟨_, rfl, by decide⟩
+/-- The OLD writer (`get_to_string`: NULL ↦ the four letters `NULL`): the former witnesses of
+`null_cell_unsound` / `null_cell_int_error`, as statements about that writer — the letters were read
+back as the string 'NULL' in a text column and rejected in an INT column … -/
+theorem null_cell_old_writer_unsound :
+    importCsv {} [.str] (writeCsv {} [[nullText]]) = .ok [[some (.str nullText)]] ∧
+    importCsv {} [.i32] (writeCsv {} [[[49]], [nullText]]) = .error := by decide
+
+/-- … REGRESSION for the new writer (fix f651426, finding `csv:null-cell`): NULL cells come back
+as NULL in every column type, alone in a one-column table (written `""`) or among others, and
+the string 'NULL' stays a string -/
+theorem null_cell_regression :
+    (∃ file, exportTable {} [[99, 48]] [[none]] = some file ∧ importCsv {} [.str] file = .ok [[none]]) ∧
+    (∃ file, exportTable {} [[99, 48]] [[some (.i32 1)], [none]] = some file ∧
+      importCsv {} [.i32] file = .ok [[some (.i32 1)], [none]]) ∧
+    (∃ file, exportTable {} [[97], [98], [99]] [[none, some (.str nullText), none]] = some file ∧
+      importCsv {} [.date, .str, .blob] file = .ok [[none, some (.str nullText), none]]) :=
+  ⟨⟨_, rfl, by decide⟩, ⟨_, rfl, by decide⟩, ⟨_, rfl, by decide⟩⟩
 
 /-- the empty string is written as `""` and read back as NULL (known finding `csv:empty-string`) -/
 theorem empty_string_unsound : ∃ file, exportTable {} [[99, 48]] [[some (.str [])]] = some file ∧
